@@ -5,7 +5,7 @@ from harness import pktutil as pu
 ID = "C10"
 REQUIRED_THEOREMS = ["terminates_bound", "complete_consecutive_short", "empty_input", "no_internal_error"]
 TRIVIAL_TAGS = set()
-RULE = ("requests `frame ...` over (a) every valid short stream cut at every byte offset x 3 source kinds x read sizes, "
+RULE = ("requests `frame ...` over (a) every valid short stream cut at every byte offset x 4 source kinds (bytes, file, socket, a file object that cannot seek) x read sizes, "
         "(b) empty input, (c) arbitrary random byte strings, (d) peer-closed sockets; the harness pulls at most |S|/7+3 "
         "items and treats more as non-termination; non-trivial = non-empty input; distinct = distinct request line")
 ASSUMPTIONS = ["a finite source is the finite list of its read()/recv() results followed by b'' forever"]
@@ -29,7 +29,7 @@ def generate(rng, tier):
             part = data[:c]
             trim = rng.choice([pu.REAL_TRIM, pu.REAL_TRIM, 3])
             yield pu.frame_line(skip, trim, "bytes", -1, [part] if part else []), "trunc-bytes"
-            for kind in ("file", "socket"):
+            for kind in ("file", "socket", "pipe"):
                 style = rng.choice(["one", 1, 2, 5, 6, 7, 13, "rand"])
                 if style == "one":
                     r, chunks = -1, ([part] if part else [])
@@ -68,7 +68,7 @@ def generate(rng, tier):
             if i + 1 < ln:
                 b[i + 1] = rng.randrange(0, 6)
         data = bytes(b)
-        kind = rng.choice(["bytes", "file", "socket"])
+        kind = rng.choice(["bytes", "file", "socket", "pipe"])
         skip = rng.choice([0, 0, 1, 3])
         chunks = [data] if kind == "bytes" else pu.cut(rng, data, rng.choice(["one", 1, 3, "rand"]))
         r = -1 if kind == "bytes" or len(chunks) <= 1 else 0
